@@ -43,6 +43,8 @@ type c08Flow struct {
 	o2    string // first reset violation
 	o2pos token.Pos
 	nblk  int
+	alias map[string]map[types.Object]bool // per (function body, slot): the locals that alias the slot
+	ment  map[string]bool                  // per (function, field slot): the function reaches a mention of the field
 }
 
 func (fl *c08Flow) viol1(pos token.Pos, format string, args ...interface{}) {
@@ -106,32 +108,71 @@ func (fl *c08Flow) run(fi *FuncInfo, x types.Object, entry int, top bool, depth 
 	}
 	in := map[*cfg.Block]int{f.g.Blocks[0]: entry}
 	work := []*cfg.Block{f.g.Blocks[0]}
-	exit, exitRet := 0, 0
+	exit, exitErr, exitRet := 0, 0, 0
+	pend := map[*cfg.Block]types.Object{}
+	hasErr := false
+	if res := fi.Obj.Type().(*types.Signature).Results(); res.Len() > 0 && isErrorType(res.At(res.Len()-1).Type()) {
+		hasErr = true
+	}
 	for len(work) > 0 {
 		b := work[len(work)-1]
 		work = work[:len(work)-1]
 		fl.nblk++
 		st := in[b]
+		var lastStmt ast.Node
+		cur := pend[b] // the error variable the upper half of st belongs to
 		for _, n := range b.Nodes {
+			if _, isExpr := n.(ast.Expr); !isExpr {
+				st = c08Collapse(st)
+				lastStmt = n
+				cur = nil
+			}
 			st = fl.step(f, n, x, st, depth)
+			if st>>4 != 0 && cur == nil {
+				if cur = c08ErrVarOf(fl.info, n); cur == nil {
+					st = c08Collapse(st)
+				}
+			}
 			if ret, isRet := n.(*ast.ReturnStmt); isRet && len(ret.Results) > 0 {
 				// the element handed back to the caller: the parameter itself, or a fresh allocation
 				switch r0 := ast.Unparen(ret.Results[0]); {
-				case objOf(fl.info, r0) == x:
+				case fl.is(f, r0, x):
 					exitRet |= st
-				case c08IsFreshAlloc(fl.info, r0, x):
+				case c08IsFreshAlloc(fl.info, r0, x), isNilIdent(r0):
+					// a fresh allocation, or no element at all (the next decode allocates one)
 					exitRet |= c08C
 				}
 			}
 		}
 		if len(b.Succs) == 0 {
 			if c01IsNormalExit(f, b) {
-				exit |= st
+				st = c08Collapse(st)
+				// an exit that certainly returns an error is kept apart: the caller's `if err != nil` sees only it
+				certErr := false
+				if ret, isRet := lastStmt.(*ast.ReturnStmt); isRet && hasErr && len(ret.Results) > 0 {
+					certErr = c01IsErrNonNilExpr(fl.info, ret.Results[len(ret.Results)-1], f.factsAtPos(ret.Pos()))
+				}
+				if certErr {
+					exitErr |= st
+				} else {
+					exit |= st
+				}
 			}
 			continue
 		}
-		for _, nb := range b.Succs {
+		cond := f.condOf(b)
+		for si, nb := range b.Succs {
 			ns := st
+			if ns>>4 != 0 {
+				ns = c08ErrEdge(fl.info, ns, cond, cur, si)
+				if ns>>4 != 0 {
+					if old, seen := pend[nb]; seen && old != cur {
+						ns = c08Collapse(ns)
+					} else {
+						pend[nb] = cur
+					}
+				}
+			}
 			if loop != nil && nb == loop.head && loop.blocks[b] && ns&c08D != 0 {
 				ns = (ns &^ c08D) | c08S
 			}
@@ -141,6 +182,7 @@ func (fl *c08Flow) run(fi *FuncInfo, x types.Object, entry int, top bool, depth 
 			}
 		}
 	}
+	exit |= exitErr << 4
 	fl.memo[key] = exit
 	if fl.memoR == nil {
 		fl.memoR = map[string]int{}
@@ -169,14 +211,25 @@ func (fl *c08Flow) escapes(f *c01Fn, n ast.Node, x types.Object, depth int) bool
 		}
 		if builtinName(info, call) == "append" && len(call.Args) >= 2 && fl.isQ(f, call.Args[0]) {
 			for _, a := range call.Args[1:] {
-				if objOf(info, a) == x {
+				if fl.is(f, a, x) {
 					hit = true
 				}
 			}
 		}
 		if tf := c01Callee(f.pk, call); tf != nil && depth < 3 {
+			// a field slot is live in every callee that mentions the field
+			if fl.mentions(tf, x) {
+				g := c01FnOf(fl.r.P, tf)
+				for _, b := range g.g.Blocks {
+					for _, m := range b.Nodes {
+						if b.Live && !hit && fl.escapes(g, m, x, depth+1) {
+							hit = true
+						}
+					}
+				}
+			}
 			for i, a := range call.Args {
-				if objOf(info, a) == x {
+				if fl.is(f, a, x) {
 					if po := c01Param(info, tf, i); po != nil {
 						g := c01FnOf(fl.r.P, tf)
 						for _, b := range g.g.Blocks {
@@ -219,8 +272,29 @@ func (fl *c08Flow) step(f *c01Fn, n ast.Node, x types.Object, st int, depth int)
 			if tf == nil {
 				return true
 			}
+			took := false
+			for _, a := range call.Args {
+				if fl.is(f, a, x) {
+					took = true
+				}
+			}
+			if !took && fl.mentions(tf, x) {
+				// the callee works on the field slot itself
+				before1, before2 := fl.o1, fl.o2
+				st = c08Collapse(st)
+				entrySt := st
+				st = fl.run(tf, x, c08Collapse(st), false, depth+1)
+				retState[call] = fl.memoR[fmt.Sprintf("%p/%p/%d/%v", tf.Obj, x, entrySt, false)]
+				if fl.o1 != before1 && before1 == "" {
+					fl.o1, fl.o1pos = fmt.Sprintf("`%s`: %s", src(fs, call), fl.o1), call.Pos()
+				}
+				if fl.o2 != before2 && before2 == "" {
+					fl.o2, fl.o2pos = fmt.Sprintf("`%s`: %s", src(fs, call), fl.o2), call.Pos()
+				}
+				return true
+			}
 			for i, a := range call.Args {
-				if objOf(info, a) != x {
+				if !fl.is(f, a, x) {
 					continue
 				}
 				po := c01Param(info, tf, i)
@@ -228,6 +302,7 @@ func (fl *c08Flow) step(f *c01Fn, n ast.Node, x types.Object, st int, depth int)
 					continue
 				}
 				before1, before2 := fl.o1, fl.o2
+				st = c08Collapse(st)
 				entrySt := st
 				st = fl.run(tf, po, st, false, depth+1)
 				retState[call] = fl.memoR[fmt.Sprintf("%p/%p/%d/%v", tf.Obj, po, entrySt, false)]
@@ -238,6 +313,49 @@ func (fl *c08Flow) step(f *c01Fn, n ast.Node, x types.Object, st int, depth int)
 				if fl.o2 != before2 && before2 == "" {
 					fl.o2, fl.o2pos = fmt.Sprintf("`%s`: %s", src(fs, call), fl.o2), call.Pos()
 				}
+			}
+			return true
+		})
+	}
+	// a struct literal that sets (or leaves out) a field slot (re)points the slot
+	if v, isVar := x.(*types.Var); isVar && v.IsField() {
+		ast.Inspect(n, func(y ast.Node) bool {
+			if _, ok := y.(*ast.FuncLit); ok {
+				return false
+			}
+			cl, ok := y.(*ast.CompositeLit)
+			if !ok {
+				return true
+			}
+			stt, ok := info.TypeOf(cl).Underlying().(*types.Struct)
+			if !ok {
+				return true
+			}
+			owns := false
+			for i := 0; i < stt.NumFields(); i++ {
+				if stt.Field(i) == v {
+					owns = true
+				}
+			}
+			if !owns {
+				return true
+			}
+			var val ast.Expr
+			for i, el := range cl.Elts {
+				if kv, ok := el.(*ast.KeyValueExpr); ok {
+					if id, ok := kv.Key.(*ast.Ident); ok && info.Uses[id] == v {
+						val = kv.Value
+					}
+				} else if i < stt.NumFields() && stt.Field(i) == v {
+					val = el
+				}
+			}
+			switch {
+			case val == nil || isNilIdent(val) || c08IsFreshAlloc(info, val, x):
+				st = c08C
+			case fl.is(f, val, x):
+			default:
+				fl.viol1(cl.Pos(), "`%s` points the element slot %s at something that is not a fresh allocation", src(fs, cl), x.Name())
 			}
 			return true
 		})
@@ -255,14 +373,19 @@ func (fl *c08Flow) step(f *c01Fn, n ast.Node, x types.Object, st int, depth int)
 				rh = s.Rhs[0]
 			}
 			lu := ast.Unparen(l)
-			if id, ok := lu.(*ast.Ident); ok && objOf(info, id) == x {
+			if !fl.isSelf(lu, x) && fl.is(f, lu, x) {
+				continue // an alias local receives the slot's element (the call's effect was applied above)
+			}
+			if fl.isSelf(lu, x) {
 				switch {
 				case rh != nil && c08IsFreshAlloc(info, rh, x):
 					if st&c08E != 0 && usesObj(info, rh, x) {
 						fl.viol1(s.Pos(), "`%s` builds the replacement from slices of the element that was already handed to the consumer", src(fs, s))
 					}
 					st = c08C
-				case rh != nil && c08CallReturnsArg(fl.m, rh, x):
+				case rh != nil && fl.is(f, rh, x):
+					// slot = alias: the same element
+				case rh != nil && fl.callReturnsSlot(f, rh, x):
 					// x, err = f(.., x): the callee's effect was applied above; x now is the element the callee
 					// handed back (its parameter, or a fresh allocation)
 					if rs, ok := retState[ast.Unparen(rh).(*ast.CallExpr)]; ok && rs != 0 {
@@ -273,18 +396,18 @@ func (fl *c08Flow) step(f *c01Fn, n ast.Node, x types.Object, st int, depth int)
 				}
 				continue
 			}
-			if se, ok := lu.(*ast.StarExpr); ok && objOf(info, se.X) == x {
+			if se, ok := lu.(*ast.StarExpr); ok && fl.is(f, se.X, x) {
 				// *x = T{...}
 				if st&c08E != 0 {
 					fl.viol1(s.Pos(), "`%s` overwrites the element through `%s` after it was appended to the block's object slice", src(fs, s), x.Name())
 				}
-				if why := c08ResetLiteral(info, f, rh, x); why != "" {
+				if why := c08ResetLiteral(info, f, rh, x, func(e ast.Expr) bool { return fl.is(f, e, x) }); why != "" {
 					fl.viol2(s.Pos(), "reset `%s`: %s", src(fs, s), why)
 				}
 				st = (st &^ (c08D | c08S | c08C)) | c08C
 				continue
 			}
-			if c01RootObj(info, l) == x {
+			if c01RootObj(info, l) == x || fl.below(f, l, x) {
 				if st == c08C && rh != nil && c08OwnEmptyReslice(info, f, l, rh, x) {
 					continue // x.F = x.F[:0] keeps a clean element clean
 				}
@@ -297,7 +420,7 @@ func (fl *c08Flow) step(f *c01Fn, n ast.Node, x types.Object, st int, depth int)
 		}
 		return st
 	case *ast.IncDecStmt:
-		if _, isId := ast.Unparen(s.X).(*ast.Ident); !isId && c01RootObj(info, s.X) == x {
+		if _, isId := ast.Unparen(s.X).(*ast.Ident); !isId && (c01RootObj(info, s.X) == x || fl.below(f, s.X, x)) {
 			st = fl.write(st, s.Pos(), "`"+src(fs, s)+"`", x)
 		}
 		return st
@@ -309,6 +432,13 @@ func (fl *c08Flow) step(f *c01Fn, n ast.Node, x types.Object, st int, depth int)
 		callEffects(e)
 	}
 	return st
+}
+
+// callReturnsSlot: rh is a call taking the slot (or an alias of it) every return of which yields that parameter or a
+// fresh allocation.
+func (fl *c08Flow) callReturnsSlot(f *c01Fn, rh ast.Expr, x types.Object) bool {
+	call, ok := ast.Unparen(rh).(*ast.CallExpr)
+	return ok && c08ReturnsParamP(fl.m, call, func(a ast.Expr) bool { return fl.is(f, a, x) })
 }
 
 // c08CallReturnsArg: rh is a call f(.., x, ..) every return of which yields that parameter (or nil with an error).
@@ -332,7 +462,7 @@ func c08OwnEmptyReslice(info *types.Info, f *c01Fn, l, rh ast.Expr, x types.Obje
 
 // c08ResetLiteral validates the whole-struct literal assigned to a rejected element: keyed fields only, constants
 // (Visible: true among them) or `[:0]` re-slices of the element's own slice of the same field. "" = valid.
-func c08ResetLiteral(info *types.Info, f *c01Fn, rh ast.Expr, x types.Object) string {
+func c08ResetLiteral(info *types.Info, f *c01Fn, rh ast.Expr, x types.Object, isX func(ast.Expr) bool) string {
 	if rh == nil {
 		return "not a struct literal"
 	}
@@ -365,7 +495,11 @@ func c08ResetLiteral(info *types.Info, f *c01Fn, rh ast.Expr, x types.Object) st
 		}
 		srcE := c01Expand(info, f.body, se.X)
 		fld := fieldOf(info, srcE)
-		if c01RootObj(info, srcE) != x || fld == nil || fld.Name() != key {
+		own := c01RootObj(info, srcE) == x
+		if sel, isSel := ast.Unparen(srcE).(*ast.SelectorExpr); isSel && !own && isX != nil {
+			own = isX(sel.X)
+		}
+		if !own || fld == nil || fld.Name() != key {
 			return key + ": `" + types.ExprString(kv.Value) + "` is not a [:0] re-slice of this element's own " + key
 		}
 	}
@@ -373,4 +507,46 @@ func c08ResetLiteral(info *types.Info, f *c01Fn, rh ast.Expr, x types.Object) st
 		return "the literal does not restore the format default Visible: true: an element after a rejected one that carries no visible flag would be reported as deleted"
 	}
 	return ""
+}
+
+// The state word of the typestate analysis has two halves: bits 0-3 are the states of the element when the last call
+// that was followed returned without a certain error, bits 4-7 its states at the callee's exits that certainly return
+// a non-nil error. The halves are merged again (c08Collapse) at the next statement; only a branch on the nil-ness of
+// the error variable that statement assigned selects one of them (c08ErrEdge), so that "the helper returns early with
+// an error, the caller returns it" is not confused with "the helper left the element as it was and decoding goes on".
+func c08Collapse(st int) int { return (st | st>>4) & 15 }
+
+// c08ErrEdge selects the half of st that successor si of a branch on `err != nil` / `err == nil` sees, err being the
+// variable the upper half belongs to; any other edge passes both halves on unchanged (the next statement merges them).
+func c08ErrEdge(info *types.Info, st int, cond ast.Expr, cur types.Object, si int) int {
+	if cond == nil || cur == nil {
+		return st
+	}
+	x, neq, ok := c01NilCmp(ast.Unparen(cond))
+	if !ok || objOf(info, x) != cur {
+		return st
+	}
+	if (neq && si == 0) || (!neq && si == 1) {
+		return (st >> 4) & 15
+	}
+	return st & 15
+}
+
+// c08ErrVarOf: the error variable statement n assigns (from the call whose exits split the state word).
+func c08ErrVarOf(info *types.Info, n ast.Node) types.Object {
+	switch s := n.(type) {
+	case *ast.AssignStmt:
+		for _, l := range s.Lhs {
+			if o := objOf(info, l); o != nil && isErrorType(o.Type()) {
+				return o
+			}
+		}
+	case *ast.ValueSpec:
+		for _, nm := range s.Names {
+			if o := info.Defs[nm]; o != nil && isErrorType(o.Type()) {
+				return o
+			}
+		}
+	}
+	return nil
 }
